@@ -5,11 +5,19 @@ ST = ['uniform_real_distribution<double>::operator() specialised to a fresh valu
       'sin/cos/sqrt uninterpreted with axioms sin^2+cos^2=1 (same argument), sqrt(x)=r: r>=0, r^2=x', 'Parameters API stub']
 def ob(id, entry, cases, expect, bounds, **kw):
     d = dict(id=id, harness='c15.cc', entry=entry, mode='real', cases=cases, expect=expect, bounds=bounds, tus=TUS, stubs=ST, native=True, assumes=['exact-real reading'],
-             outside=['MT19937 (seeding, stream, "different seeds give different draws")', 'seeding in the World constructor / parse_entries (JSON)', 'the deflected variant and the fault / subducting plate / plume families (same code pattern, different call signature; not instantiated)'])
+             outside=['MT19937 (seeding, stream, "different seeds give different draws")', 'the deflected variant and the fault / subducting plate / plume families (same code pattern, different call signature; not instantiated)'])
     d.update(kw); return d
+from C01 import TUS as T1
+WP_TUS = ['world_parse.cc'] + T1[1:]
+WP_ST = ['Parameters API stub: constructor, declare_entries and initialize (JSON reading) are empty; every entry is an arbitrary value of its schema type; no features',
+         'the world file itself and schema validation are outside']
 OBLIGATIONS = [
+    dict(id='C15.seed', harness='world_parse.cc', entry='h_world_parse', mode='real', cases=[(0, 2)], expect=['the engine is mt19937 seeded with the file\'s non-negative \'random number seed\' (rank 0), else with the constructor seed',
+         'the first state word is the seed itself: different seeds give different engines', 'end'],
+         bounds='the real World constructor and World::parse_entries with all 2^64 constructor seeds and all 2^32 file seed entries; libstdc++ mt19937 seeding executed symbolically (624 state words compared)', tus=WP_TUS, stubs=WP_ST, native=False, allow_throw=True,
+         assumes=['MPI rank 0 (the library is built without MPI here)'], outside=['the output stream of MT19937 beyond its seeding (standard library)'], time_cap=600),
     ob('C15.rot', 'h_c15_grains', [(1, 0, 0, 1)], ['the only pre-existing state a random model may touch is the world\'s engine', 'the number of draws depends only on the model state, the composition number and the grain count',
-       'random grain orientation is orthonormal (R R^T = I)', 'random grain orientation has determinant +1', 'end'], '1 grain (quick) / 2 grains (thorough)', cases_thorough=[(1, 0, f, 1) for f in range(3)] + [(2, 0, 0, 1)], time_cap=270, libm_mono=False, ackermann=True),
+       'random grain orientation is orthonormal (R R^T = I)', 'random grain orientation has determinant +1', 'end'], '1 grain (quick) / 2 grains (thorough)', cases_thorough=[(1, 0, f, 1) for f in range(3)] + [(2, 0, 0, 1)], time_cap=900, libm_mono=False, ackermann=True),
     ob('C15.size', 'h_c15_grains', [(k, 1, f, n) for f in range(3) for (k, n) in ((1, 1), (2, 1), (2, 2))], ['grain count is preserved', 'normalised grain sizes sum to one', 'fixed grain sizes are returned as given', 'random grain sizes lie in [0,1)', 'end'], '1..2 grains (3 thorough), 1..2 listed compositions with arbitrary labels, continental / oceanic / mantle-layer families', cases_thorough=[(k, 1, f, n) for f in range(3) for (k, n) in ((1, 1), (2, 1), (2, 2), (3, 2))]),
     ob('C15.comp', 'h_c15_composition', [()], ['one draw per random composition', 'random composition lies within its configured bounds', 'end'], 'all bounds with max > min'),
 ]
